@@ -67,6 +67,8 @@ def run_batch(sim_name, prop, tier, seed, stratum, indices, hash_seed="0"):
     other = Counter()
     samples = []
     n_ops = 0
+    census = Counter()
+    census_w = {}
     for idx in indices:
         rng = core.run_rng(seed, prop, stratum, idx)
         cfg = sim.draw_config(rng, prop, tier, stratum, idx)
@@ -89,6 +91,8 @@ def run_batch(sim_name, prop, tier, seed, stratum, indices, hash_seed="0"):
                 if ent["witness"] is None or len(f.detail) < len(ent["witness"]):
                     ent["witness"] = f.detail
             else:
+                census[f.key_str()] += 1
+                census_w.setdefault(f.key_str(), f.detail)
                 if len(unknown) < 5:
                     unknown.append({"index": idx, "finding": f.to_json(), "cfg": cfg,
                                     "ops": res.ops, "op_index": op_i})
@@ -101,6 +105,7 @@ def run_batch(sim_name, prop, tier, seed, stratum, indices, hash_seed="0"):
         "sigs": {k: sorted(v) for k, v in sigs.items()},
         "known": known_hits, "unknown": unknown, "other": dict(other),
         "samples": samples, "ops": n_ops, "runs": len(indices),
+        "census": dict(census), "census_w": census_w,
     }
 
 
@@ -218,6 +223,19 @@ def _finish(sim, sim_name, prop, tier, seed, plan, results, t0):
             samples.extend(r["samples"][:1])
         n_ops += r["ops"]
         n_runs += r["runs"]
+    if core.CENSUS:
+        cen = Counter()
+        cw = {}
+        for r in results:
+            cen.update(r.get("census", {}))
+            for k, v in r.get("census_w", {}).items():
+                if k not in cw or len(v) < len(cw[k]):
+                    cw[k] = v
+        print(f"CENSUS over {n_runs} runs, {n_ops} ops:")
+        for k, v in cen.most_common():
+            print(f"{v:7d}  {k}\n           e.g. {cw[k][:400]}")
+        print({k: v for k, v in stats.items() if k.startswith(("fault.", "equiv.", "reparse."))})
+        return 0
     known = core.load_known()
     exit_code = 0
     lines = []
